@@ -30,7 +30,9 @@ Verdicts(r) ==
   IN (IF r.raised # "" THEN {"C11:raised"} ELSE {})
      \cup (IF ~IsMerge(r.gets) THEN {"XX:not-a-merge"} ELSE {})
      \cup (IF r.raised = "" /\ (Len(r.gets) # total \/ st.nb # 0) THEN {"C11:returns-before-all-finished"} ELSE {})
-     \cup (IF r.raised = "" /\ r.mode = "solve" /\ r.yields # expY THEN {"C11:yields-differ-from-arrivals"} ELSE {})
+     \* the property fixes the multiset, not the order: yielding in another order than the arrival order is drift
+     \cup (IF r.raised = "" /\ r.mode = "solve" /\ r.yields # expY /\ BagOf(r.yields) = BagOf(expY) THEN {"DRIFT:yields-not-in-arrival-order"} ELSE {})
+     \cup (IF r.raised = "" /\ r.mode = "solve" /\ BagOf(r.yields) # BagOf(expY) THEN {"C11:yields-differ-from-what-the-workers-sent"} ELSE {})
      \cup (IF r.hasseq /\ r.raised = "" /\ r.mode = "solve" /\ BagOf(r.yields) # BagOf(r.seq) THEN {"C11:bag-differs-from-sequential"} ELSE {})
      \cup (IF r.hasseq /\ r.raised = "" /\ r.mode # "solve" /\ (r.none # r.seqnone) THEN {"C11:none-iff-infeasible"} ELSE {})
      \cup (IF r.hasseq /\ r.raised = "" /\ r.mode # "solve" /\ ~r.none /\ ~r.seqnone /\ r.ret[r.var + 1] # r.seqopt
